@@ -427,3 +427,12 @@ Proof.
   apply C15_formatted_boundaries_stay_close. constructor; [|constructor]. split; [right; reflexivity|].
   rewrite Rabs_R0, Rmult_0_r. left. apply tol10_pos.
 Qed.
+
+(* bin_distance_from_boundaries (metadynamics: is the variable on the grid?): non-negative exactly when every value of a
+   non-periodic dimension lies between its boundaries (both included); periodic dimensions do not count *)
+Theorem C15_bin_distance_sign : forall per lower upper w x acc,
+  Forall (fun wi => (0 < wi)%R) w -> length lower = length per -> length upper = length per -> length w = length per ->
+  length x = length per ->
+  ((0 <= bin_distance Rops per lower upper w x acc)%R <-> (0 <= acc)%R /\ all_inside per lower upper x).
+Proof. exact bin_distance_sign. Qed.
+Print Assumptions C15_bin_distance_sign.
